@@ -52,6 +52,7 @@ public:
     {
         results.clear();
         cse_intermediate_fns.clear();
+        cse_intermediate_fns_map.clear();
         symbols = inputs;
         if (not cse) {
             for (auto &p : outputs) {
